@@ -99,4 +99,33 @@ def triggerOuts : List Op → List Out → List Res
   | _ :: ops, _ :: outs => triggerOuts ops outs
   | _, _ => []
 
+/-! ### the environment of a synchronous trigger fired by the fs corruption hook (finding F-C20-1)
+
+`turmoil-fs` fires the hook from inside `FsContext::current`, i.e. while the host's `Fs` mutex is held. A reaction
+that panics (`Panic`, or `Suspend` met by `trigger_noop`) therefore poisons that mutex; if the unwinding host code
+then drops a shim `File`, `Drop for File` → `FsContext::current_if_set` → `lock().expect(..)` panics *during
+unwinding* and the process aborts instead of the triggering code panicking. -/
+
+structure HookCfg where
+  /-- repair: the drop path of the shim tolerates a poisoned `Fs` mutex -/
+  fixDropPoison : Bool
+deriving DecidableEq, Repr
+
+def faithfulHook : HookCfg := ⟨false⟩
+def fixedHook : HookCfg := ⟨true⟩
+
+inductive HookRes
+  | res (r : Res)
+  /-- the whole process dies (`panic in a destructor during cleanup`) -/
+  | abort
+deriving DecidableEq, Repr
+
+/-- decidable pattern of F-C20-1: the trigger came through the fs hook in code that holds open shim files, and the
+    barrier model says it panics -/
+def patHookPanicAborts (viaHookWithFiles : Bool) (r : Res) : Bool :=
+  viaHookWithFiles && (r == .panicInjected || r == .panicMisuse)
+
+def hookOutcome (cfg : HookCfg) (viaHookWithFiles : Bool) (r : Res) : HookRes :=
+  if !cfg.fixDropPoison && patHookPanicAborts viaHookWithFiles r then .abort else .res r
+
 end TV.Barrier
